@@ -315,6 +315,52 @@ pub fn cmd_matrix(a: &[String]) {
                 }
             }
         }
+        // peg boundary: states in which the bSei rate sits exactly on er_threshold (and a hair
+        // below / above it), then every fee-charging operation from there
+        "c05" => {
+            for (thr, sn, sd) in [(9 * D / 10, 1u128, 10u128), (D / 2, 1, 2), (3 * D / 4, 1, 4), (D, 1, 10)] {
+                for fee in [D / 20, D / 5, D] {
+                    for both in [false, true] {
+                        for op in genesis(&[201, 202, 203]) {
+                            out.step(&op);
+                        }
+                        out.step(&tx(OWNER, HUB, Call::Hub(HubMsg::UParams(None, None, Some(fee), Some(thr), None, None))));
+                        out.step(&txf(5, HUB, Call::Hub(HubMsg::Bond), 900_000));
+                        if both {
+                            out.step(&txf(6, HUB, Call::Hub(HubMsg::BondSt), 450_000));
+                        }
+                        out.step(&tx(5, BSEI, Call::Tok(TokMsg::IncAllow(6, 500_000, None))));
+                        for val in [201, 202, 203] {
+                            out.step(&Op::Env(EnvOp::Slash(val, sn, sd)));
+                        }
+                        out.step(&tx(7, HUB, Call::Hub(HubMsg::Check)));
+                        for variant in 0..3 {
+                            match variant {
+                                1 => {
+                                    out.step(&Op::Env(EnvOp::Slash(201, 1, 1000)));
+                                    out.step(&tx(7, HUB, Call::Hub(HubMsg::Check)));
+                                }
+                                2 => {
+                                    // burning bSei lifts the rate (past the values of variants 0 and 1)
+                                    out.step(&tx(6, BSEI, Call::Tok(TokMsg::BurnFrom(5, 2_000))));
+                                }
+                                _ => {}
+                            }
+                            out.step(&Op::Save);
+                            for a in [1u128, 1_000, 10_001, 400_000] {
+                                out.cell(&tx(5, BSEI, Call::Tok(TokMsg::Send(HUB, a, Hook::Unbond))));
+                                out.cell(&tx(6, BSEI, Call::Tok(TokMsg::SendFrom(5, HUB, a, Hook::Unbond))));
+                                out.cell(&txf(7, HUB, Call::Hub(HubMsg::Bond), a));
+                                out.cell(&tx(5, BSEI, Call::Tok(TokMsg::Send(HUB, a, Hook::Convert))));
+                                if both {
+                                    out.cell(&tx(6, STSEI, Call::Tok(TokMsg::Send(HUB, a, Hook::Convert))));
+                                }
+                            }
+                        }
+                    }
+                }
+            }
+        }
         "c20" => {
             for op in genesis(&[201, 202, 203]) {
                 out.step(&op);
@@ -411,6 +457,7 @@ pub fn cmd_matrix(a: &[String]) {
         let prop: &'static str = match p.as_str() {
             "C11" => "C11",
             "C20" => "C20",
+            "C05" => "C05",
             _ => "C10",
         };
         r.violations.push((0, l, crate::oracle::Violation { prop, class: c, detail: d }));
